@@ -165,6 +165,14 @@ func (engine) Generate(r *lib.Rng, tier string, i int) any {
 			c.Entry = "collect"
 		}
 	}
+	if c.Input.Kind == "nil" && (c.Entry != "" || c.PipeLambdas) {
+		c.Input = gg.MapOf() // (genEmptyFanin) the nil map only through Invoke with Invoke-native lambdas, see below
+	}
+	if c.Entry == "" && !c.PipeLambdas && r.Chance(1, 30) {
+		// the nil map as the input of the run (round 6; Invoke with Invoke-native lambdas only: a nil map does not
+		// survive being cut into chunks and concatenated, which is C04's subject)
+		c.Input = gg.NilMap()
+	}
 	return c
 }
 
@@ -378,7 +386,9 @@ func generate(r *lib.Rng, tier string) *gg.Case {
 	if tier == "thorough" {
 		o = gg.Thorough()
 	}
-	switch x := r.Intn(21); {
+	switch x := r.Intn(22); {
+	case x == 21:
+		return genEmptyFanin(r)
 	case x == 20:
 		return genFanout(r)
 	case x < 12:
@@ -395,6 +405,16 @@ func (engine) Decode(raw json.RawMessage) (any, error) {
 	var c c01case
 	if err := json.Unmarshal(raw, &c); err != nil {
 		return nil, err
+	}
+	if c.Input == nil {
+		// "input": null is the nil map (round 6): encoding/json leaves a pointer nil on null without asking the
+		// type, so the nil map is told from a missing input by looking at the keys of the case
+		var keys map[string]json.RawMessage
+		if json.Unmarshal(raw, &keys) == nil {
+			if v, ok := keys["input"]; ok && string(v) == "null" {
+				c.Input = gg.NilMap()
+			}
+		}
 	}
 	if len(c.Forest) == 0 || c.Input == nil {
 		return nil, fmt.Errorf("case needs forest and input")
@@ -468,6 +488,9 @@ func (engine) Run(c any) lib.Result {
 	if hasGraphOutKey(&cc.Case) {
 		res.Tags = append(res.Tags, "shape:graph-node-output-key")
 	}
+	if cc.Input.Kind == "nil" {
+		res.Tags = append(res.Tags, "input:nil-map")
+	}
 	if cc.Entry != "" {
 		res.Tags = append(res.Tags, "entry:"+cc.Entry)
 	} else {
@@ -529,6 +552,11 @@ func (engine) Run(c any) lib.Result {
 			res.Oracle, res.Sig = concurrentPhase(cs, 1, 6)
 			res.Tags = append(res.Tags, "rerun:1x6")
 		}
+	}
+	if res.Oracle == "" && obs.Class != "hang" && obs.Class != "panic" && (cc.RtMax > 0 || cc.Entry != "") && cc.Input.Kind == "map" && streamable(&cc.Case) {
+		// one compiled object called again with other step limits / through other entries (see rerunopts.go)
+		res.Oracle, res.Sig = mixedRerunPhase(cc)
+		res.Tags = append(res.Tags, "rerun:other-options-and-entries")
 	}
 	res.Nontrivial = gg.Nontrivial(cs, obs)
 	return res
